@@ -131,7 +131,7 @@ def answer (line : String) : String :=
           let r := eval ⟨q, s.tz⟩ fuel e s.ρ h
           let (m, envok, h') := match r with
             | .ok (v, ρ', h') => (Out.ok (obs h' v), envSame h' ρ' s.ρ, h')
-            | .error er => (Out.err er, true, h)
+            | .error (er, ρ', h') => (Out.err er, envSame h' ρ' s.ρ, h')
           let sp := semOut s.tz h0 fuel e s.ρ
           let ws := WS lex true (dom s.ρ) e
           (h', recs ++ [s!"m={showOut m} s={showOut sp} env={if envok then 1 else 0} heap={showHeap h'} ws={if ws then 1 else 0} p={showOut pout}"]))
